@@ -1,0 +1,58 @@
+//! Verification hooks, compiled only with `--cfg fselect_verif`.
+//!
+//! One NDJSON event per traversal / buffering / output step is appended to the file named by
+//! `$FSELECT_VERIF_TRACE`; nothing happens when the variable is unset. The events are consumed by
+//! the trace specifications under /verif/spec (Trace_Walker, Trace_Writer).
+
+use std::fs::OpenOptions;
+use std::io::Write;
+use std::path::Path;
+use std::sync::atomic::{AtomicU64, Ordering};
+
+static SEQ: AtomicU64 = AtomicU64::new(0);
+
+/// Appends `{"seq":N,"ev":"<event>",<fields>}`; every field value must already be JSON text.
+pub fn emit(event: &str, fields: &[(&str, String)]) {
+    let path = match std::env::var("FSELECT_VERIF_TRACE") {
+        Ok(path) if !path.is_empty() => path,
+        _ => return,
+    };
+
+    let seq = SEQ.fetch_add(1, Ordering::SeqCst) + 1;
+    let mut line = format!("{{\"seq\":{},\"ev\":\"{}\"", seq, event);
+    for (name, value) in fields {
+        line.push_str(&format!(",\"{}\":{}", name, value));
+    }
+    line.push_str("}\n");
+
+    if let Ok(mut file) = OpenOptions::new().create(true).append(true).open(path) {
+        let _ = file.write_all(line.as_bytes());
+    }
+}
+
+/// JSON text of a string.
+#[allow(dead_code)]
+pub fn text(value: &str) -> String {
+    serde_json::to_string(value).unwrap_or_else(|_| String::from("\"\""))
+}
+
+/// JSON text of the inode number of `path` itself (links are not followed), as a string.
+#[allow(dead_code)]
+#[cfg(unix)]
+pub fn ino(path: &Path) -> String {
+    use std::os::unix::fs::MetadataExt;
+    match std::fs::symlink_metadata(path) {
+        Ok(meta) => format!("\"{}\"", meta.ino()),
+        _ => String::from("\"\""),
+    }
+}
+
+/// JSON text of the inode number of what `path` resolves to, as a string.
+#[cfg(unix)]
+pub fn ino_followed(path: &Path) -> String {
+    use std::os::unix::fs::MetadataExt;
+    match std::fs::metadata(path) {
+        Ok(meta) => format!("\"{}\"", meta.ino()),
+        _ => String::from("\"\""),
+    }
+}
